@@ -75,8 +75,28 @@ class UserGen(xtuml.IdGenerator):
         return self.ids[self.k - 1] if self.k <= len(self.ids) else 10 ** 6 + self.k
 
 
+class UserPoolGen(xtuml.IdGenerator):
+    """a user-supplied generator that redefines the public methods next() and peek() (and keeps no state of the base
+    class): the ids a metamodel hands out are the values of next()"""
+    def __init__(self, ids):
+        self.ids = list(ids)
+        self.k = 1                       # as UserGen.k: one more than the number of ids handed out
+
+    def _at(self, k):
+        return self.ids[k] if k < len(self.ids) else 10 ** 6 + k + 1
+
+    def peek(self):
+        return self._at(self.k - 1)
+
+    def next(self):
+        self.k += 1
+        return self._at(self.k - 2)
+
+
 def make_generator(plan):
     kind = plan.get('gen', 'int')
+    if kind == 'user' and (plan.get('opt') or {}).get('gen_style') == 'methods':
+        return UserPoolGen([decode(t) for t in plan.get('userids', [])])
     if kind == 'int':
         return xtuml.IntegerGenerator()
     if kind == 'uuid':
@@ -131,6 +151,8 @@ def file_form(text, rnd):
 
 
 class World(object):
+    bp = None                        # set by a load through the BridgePoint loader: {'rows': ..., 'globals': ...}
+
     def __init__(self, plan):
         self.schema = plan['schema']
         self.plan = plan
@@ -193,11 +215,55 @@ class World(object):
                 m = xtuml.load_metamodel(res)
                 m.id_generator = make_generator(self.plan)     # load_metamodel offers no choice of generator
                 return m, loader
+            elif route.startswith('bp_'):
+                # the BridgePoint loader: the ooaofooa schema (and, on demand, the predefined global rows) comes with the
+                # loader, the chunks hold rows only
+                from bridgepoint import ooaofooa
+                loader = ooaofooa.Loader(load_globals=bool(self.bp and self.bp['globals']))
+                for path in self.bp_write(chunks, route, tmp, rnd):
+                    if path is None:
+                        loader.input(chunks[0])
+                    else:
+                        loader.filename_input(path)
             else:
                 raise SystemExit('unknown route %r' % route)
             return loader.build_metamodel(make_generator(self.plan)), loader
         finally:
             shutil.rmtree(tmp, ignore_errors=True)
+
+    def bp_write(self, chunks, route, tmp, rnd):
+        """the chunks as model files the way bridgepoint.ooaofooa.ModelLoader.filename_input takes them: single files, a
+        directory tree of .xtuml files (files with other endings are not part of the model), a zip archive; -> paths
+        ([None]: the text goes to input())"""
+        if route == 'bp_input':
+            return [None] if len(chunks) == 1 else self.bp_write(chunks, 'bp_files', tmp, rnd)
+        if route == 'bp_files':
+            paths = []
+            for k, ch in enumerate(chunks):
+                p = os.path.join(tmp, 'f%d.%s' % (k, ['xtuml', 'sql'][k % 2]))
+                with open(p, 'w', encoding='utf-8', newline='') as f:
+                    f.write(file_form(ch, rnd))
+                paths.append(p)
+            return paths
+        noise = 'INSERT INTO S_DT VALUES (1, 0, \'not part of the model\', \'\', \'\');\n'
+        if route == 'bp_dir':
+            root = os.path.join(tmp, 'model')
+            for k, ch in enumerate(chunks):
+                d = os.path.join(root, *['pkg%d' % j for j in range(k % 3)])
+                os.makedirs(d, exist_ok=True)
+                with open(os.path.join(d, 'part%d.xtuml' % k), 'w', encoding='utf-8', newline='') as f:
+                    f.write(file_form(ch, rnd))
+            with open(os.path.join(root, 'notes.txt'), 'w') as f:
+                f.write(noise)
+            return [root]
+        if route == 'bp_zip':
+            p = os.path.join(tmp, 'model.zip')
+            with zipfile.ZipFile(p, 'w') as z:
+                for k, ch in enumerate(chunks):
+                    z.writestr('/'.join(['pkg%d' % j for j in range(k % 3)] + ['part%d.xtuml' % k]), file_form(ch, rnd))
+                z.writestr('readme.txt', noise)
+            return [p]
+        raise SystemExit('unknown route %r' % route)
 
     def render_population(self, rows, rnd, order='schema_first', nchunks=1, named=None, parts=None, modes=None):
         sch = [s for _, s in _sql.schema_statements(self.schema, rnd, parts if parts is not None else ('table', 'rop', 'index'))]
@@ -272,7 +338,11 @@ class World(object):
             attrs[c] = [[n, t.upper()] for n, t in mc.attributes] or [['?', '?']]
             uniq[c] = sorted([[k, list(v)] for k, v in mc.indices.items()])
         assocs = []
+        inside = set(c.upper() for c in self.schema['classes'])
         for a in m.associations:
+            if self.bp and not (a.source_link.from_metaclass.kind.upper() in inside and
+                                a.target_link.from_metaclass.kind.upper() in inside):
+                continue                # (the ooaofooa schema is compared on the classes of the plan's part of it)
             assocs.append({'rel': a.rel_id, 'src': a.target_link.from_metaclass.kind, 'skeys': list(a.source_keys),
                            'smany': bool(a.source_link.many), 'scond': bool(a.source_link.conditional),
                            'sphrase': a.target_link.phrase,
@@ -280,6 +350,8 @@ class World(object):
                            'tmany': bool(a.target_link.many), 'tcond': bool(a.target_link.conditional),
                            'tphrase': a.source_link.phrase})
         extra = sorted(k for k in m.metaclasses if k not in [c.upper() for c in self.schema['classes']])
+        if self.bp:
+            extra = []
         return {'attrs': attrs, 'uniques': uniq, 'assocs': assocs, 'extra': extra}
 
     def ordinal(self, c, inst):
@@ -463,20 +535,31 @@ class World(object):
         tmp = tempfile.mkdtemp(prefix='vt-cli-')
         try:
             p = os.path.join(tmp, 'db.sql')
-            xtuml.persist_database(self.m, p)
-            args = []
+            if self.bp:
+                # bridgepoint.consistency_check: the rows of the model as files / directory / archive; the schema (and with
+                # -g the predefined rows) is the tool's own
+                import bridgepoint.consistency_check as cc
+                rnd = random.Random(o.get('seed', 0))
+                chunks = self.render_population(self.bp['rows'], rnd, nchunks=o.get('files', 1), parts=[]) if self.bp['rows'] else ['']
+                paths = self.bp_write(chunks, o.get('route', 'bp_files') if o.get('route') != 'bp_input' else 'bp_files', tmp, rnd)
+                script = os.path.join(os.path.dirname(cc.__file__), 'consistency_check.py')
+            else:
+                xtuml.persist_database(self.m, p)
+                paths = [p]
+                script = None
+            args = ['-g'] if self.bp and self.bp['globals'] else []
             for r in o['rels']:
                 args += ['-r', r[1:]]
             for j, c in enumerate(o['kinds']):
                 args += ['-k', spell(c, len(o['rels']) + j)]
             logging.disable(logging.CRITICAL)
             try:
-                n = cc.main(args + [p])
+                n = cc.main(args + paths)
             finally:
                 logging.disable(logging.NOTSET)
             nonzero = n > 0
             if o.get('proc'):
-                rc = subprocess.run([sys.executable, '-m', 'xtuml.consistency_check'] + args + [p], stdout=subprocess.DEVNULL,
+                rc = subprocess.run([sys.executable, '-m', cc.__name__] + args + paths, stdout=subprocess.DEVNULL,
                                     stderr=subprocess.DEVNULL, timeout=60).returncode
                 if (rc != 0) != nonzero or rc not in (0, 1):
                     return R(e='exit status %d for %d violations' % (rc, n))
@@ -516,8 +599,13 @@ class World(object):
             rows, how = act[1], (act[2] if len(act) > 2 else {})
             ev.update({'rows': rows, 'g': -1, 'how': how})
             rnd = random.Random(how.get('seed', k))
-            chunks = self.render_population(rows, rnd, how.get('order', 'schema_first'), how.get('chunks', 1),
-                                            how.get('named'), how.get('parts'), how.get('modes'))
+            if how.get('route', '').startswith('bp_'):
+                # the first how['skip'] rows are the predefined global rows: the loader brings them itself
+                self.bp = {'rows': rows[how.get('skip', 0):], 'globals': bool(how.get('skip'))}
+                chunks = self.render_population(self.bp['rows'], rnd, nchunks=how.get('chunks', 1), parts=[]) if self.bp['rows'] else ['']
+            else:
+                chunks = self.render_population(rows, rnd, how.get('order', 'schema_first'), how.get('chunks', 1),
+                                                how.get('named'), how.get('parts'), how.get('modes'))
             if how.get('infer'):
                 ev['infer'] = how['infer']
             m, _ = self.load_texts(chunks, how.get('route', 'input'), rnd)
@@ -663,7 +751,50 @@ class World(object):
         raise SystemExit('unknown action %r' % (act,))
 
 
+_SHADOWED = set()
+_RETYPE = {'INTEGER': 'UNIQUE_ID', 'UNIQUE_ID': 'INTEGER', 'STRING': 'BOOLEAN', 'BOOLEAN': 'STRING', 'REAL': 'STRING'}
+_ZERO = {'INTEGER': 0, 'UNIQUE_ID': 0, 'STRING': '', 'BOOLEAN': False, 'REAL': 0.0}
+
+
+def shadow_prelude(schema):
+    """Another metamodel lives in the same process: same class, attribute and association names, but every attribute of
+    another type.  It is loaded with rows that hold the null / zero value of every type and with rows that hold other
+    values, used through the API and dropped.  Metamodels are independent: nothing of this may show in the run."""
+    key = json.dumps(schema, sort_keys=True)
+    if key in _SHADOWED:
+        return
+    _SHADOWED.add(key)
+    sh = dict(schema, attrs={c: [{'n': a['n'], 't': _RETYPE.get(a['t'].upper(), a['t'])} for a in schema['attrs'][c]]
+                             for c in schema['classes']})
+    if any(a['t'].upper() not in _ZERO for c in sh['classes'] for a in sh['attrs'][c]):
+        return
+    try:
+        rnd = random.Random(1)
+        text = '\n'.join(st for _, st in _sql.schema_statements(sh, rnd))
+        loader = xtuml.ModelLoader()
+        loader.input(text)
+        m = loader.build_metamodel()
+        for rep in range(2):
+            for c in sh['classes']:
+                vals = {a['n']: (_ZERO[a['t'].upper()] if rep == 0 else {'INTEGER': 3, 'UNIQUE_ID': 3, 'STRING': 'x',
+                                                                         'BOOLEAN': True}[a['t'].upper()])
+                        for a in sh['attrs'][c]}
+                try:
+                    m.new(c, **vals)
+                except xtuml.MetaException:
+                    pass
+        l2 = xtuml.ModelLoader()
+        l2.input(xtuml.serialize(m))
+        m2 = l2.build_metamodel()
+        xtuml.check_association_integrity(m2)
+        xtuml.check_uniqueness_constraint(m2)
+    except Exception:
+        pass                                  # (the prelude is not judged)
+
+
 def run(plan, acts, obs=None):
+    if (plan.get('opt') or {}).get('shadow'):
+        shadow_prelude(plan['schema'])
     w = World(plan)
     events = []
     for k, act in enumerate(acts):
